@@ -684,7 +684,7 @@ def run_c14(tier):
             if kind == "payload":
                 idents = set(p.shape["idents"])
                 new = sorted(idents - base_idents)
-                if pos in ("target-namespace", "imported-namespace"):
+                if pos.startswith(("target-namespace", "imported-namespace")):
                     # a namespace URI legitimately names its module and prefix
                     import re as _re
                     new = [i for i in new if not _re.fullmatch(r"mod_[a-z0-9]+", i)]
@@ -693,7 +693,8 @@ def run_c14(tier):
                     v.violation(f"C14|injection|position={pos}|payload-class={a}|seen-as=identifier-or-code",
                                 {"program": p.label, "new_identifiers": new[:10], "leaked": leaked[:5], "text": text}, files)
                 lits = p.shape["lit_strs"]
-                if pos in ("enumeration", "target-namespace", "imported-namespace"):
+                if pos in ("enumeration", "target-namespace", "imported-namespace", "target-namespace-opaque-uri",
+                           "imported-namespace-opaque-uri"):
                     if text not in lits:
                         near = [l for l in lits if gen_c14.MARK in l][:3]
                         v.violation(f"C14|literal-value|position={pos}|payload-class={a}",
@@ -708,7 +709,7 @@ def run_c14(tier):
                     "thorough: all strict, reserved and weak keywords of edition 2024) in each of 8 naming positions (local element, attribute, "
                     "complex type, simple type, global element, operation, part, service) and (b) each of 14 payload classes in each of 9 text "
                     "positions (enumeration value, numeric facet, length facet, simple/complex documentation, target / imported namespace URI, "
-                    "endpoint address, soapAction). Oracles: syn parse, rustc compile, component still present (keywords), identifier set "
+                    "endpoint address, soapAction; the four URI positions both as http:// and as urn: URIs). Oracles: syn parse, rustc compile, component still present (keywords), identifier set "
                     "equal to the payload-free baseline and marker absent from identifiers and non-string literals (payloads), string "
                     "literal value == original text for enumeration values and namespace URIs. Distinct = (kind, keyword|class, position) cells",
             "exhaustive": tier == "thorough", "keywords": kws, "generator_accepted": accepted, "outcomes": outcomes, "samples": samples or [{"note": "see cells"}],
